@@ -36,6 +36,13 @@ CLASSES = {
                          "state_fluents": ("ref", "opaque")}, "bases": [],
               "src": ("models.pddl_state", "State")},
     "opaque": {"fields": {}, "bases": [], "lib": True},
+    "Domain": {"fields": {"name": "str", "types": ("ref", "dict_str_ref"), "constants": ("ref", "dict_str_ref"),
+                          "predicates": ("ref", "dict_str_ref"), "functions": ("ref", "dict_str_ref"), "actions": ("ref", "dict_str_ref")},
+               "bases": [], "src": ("models.pddl_domain", "Domain")},
+    "ProblemParser": {"fields": {"domain": ("ref", "Domain"), "problem": ("ref", "opaque")}, "bases": [],
+                      "src": ("lisp_parsers.problem_parser", "ProblemParser")},
+    "ENHSPParser": {"fields": {}, "bases": [], "src": ("exporters.enhsp_output_parser", "ENHSPParser")},
+    "MetricFFParser": {"fields": {}, "bases": [], "src": ("exporters.ff_output_parser", "MetricFFParser")},
 }
 
 
